@@ -243,6 +243,10 @@ func init() {
 		"ValidateDenom", "mustValidateDenom", "add", "sub", "mul", "div", "quo", "mod", "neg", "abs", "equal", "gt", "gte", "lt", "lte", "min", "max", "cmp", "NewIntWithDecimal", "MinInt", "MaxInt"} {
 		execThrough[sdkT+"."+f] = true
 	}
+	// range-end helpers of the store (plain byte-slice code)
+	for _, f := range []string{sdkT + ".PrefixEndBytes", sdkT + ".InclusiveEndBytes", "github.com/cosmos/cosmos-sdk/store/types.PrefixEndBytes", "github.com/cosmos/cosmos-sdk/store/types.InclusiveEndBytes"} {
+		execThrough[f] = true
+	}
 	_ = strings.HasPrefix
 }
 
